@@ -430,6 +430,29 @@ pub fn run(out: &mut Out, tier: &str, rng: &mut Rng) {
             out.case("maximize", &[a, b, c], || maximize(a, b, c));
             out.case("minimize", &[a, b, c], || minimize(a, b, c));
         }
+        out.comment("state carried from one call to the next: ordered pairs of triples that share their language (ONE case = two calls, so both run in the same process)");
+        {
+            let mut groups: std::collections::BTreeMap<String, Vec<(String, String, String)>> = std::collections::BTreeMap::new();
+            for (a, b, c) in lang_products() { if !a.is_empty() { groups.entry(a.clone()).or_default().push((a, b, c)); } }
+            for (l, _, _) in keys.iter() { if !l.is_empty() { let g = groups.entry(l.clone()).or_default(); if g.is_empty() { g.push((l.clone(), String::new(), String::new())); } } }
+            for (l, g) in groups.iter_mut() {
+                // the shorter forms of the same language as well
+                let mut extra: Vec<(String, String, String)> = vec![(l.clone(), String::new(), String::new())];
+                for (_, s, r) in g.iter() { extra.push((l.clone(), s.clone(), String::new())); extra.push((l.clone(), String::new(), r.clone())); }
+                g.extend(extra); g.sort(); g.dedup();
+                let cap = if thorough { 40 } else { 14 };
+                if g.len() > cap { let step = g.len() / cap + 1; *g = g.iter().step_by(step).cloned().collect(); }
+            }
+            for (_, g) in groups.iter() {
+                if g.len() < 2 { continue; }
+                for x in g.iter() { for y in g.iter() {
+                    if x == y { continue; }
+                    let args: [&[u8]; 6] = [x.0.as_bytes(), x.1.as_bytes(), x.2.as_bytes(), y.0.as_bytes(), y.1.as_bytes(), y.2.as_bytes()];
+                    out.case("seq_maximize", &args, || { let _ = maximize(args[0], args[1], args[2]); maximize(args[3], args[4], args[5]) });
+                    out.case("seq_minimize", &args, || { let _ = minimize(args[0], args[1], args[2]); minimize(args[3], args[4], args[5]) });
+                } }
+            }
+        }
         out.comment("registered codes outside the CLDR likely-subtags data, each combined with known and unknown neighbours");
         for sc in EXTRA_SCRIPTS.iter() { for l in ["", "ur", "ar", "en", "zh", "sr", "xx"] { for r in ["", "PK", "US", "XX"] {
             let (a, b, c) = (l.as_bytes(), sc.as_bytes(), r.as_bytes());
@@ -493,6 +516,26 @@ pub fn run(out: &mut Out, tier: &str, rng: &mut Rng) {
         for l in ["he", "ar-EG", "uz", "pa-PK", "en", "und", "az-Arab", "fa-Latn"] {
             let s = format!("{}-{}", l, v);
             out.case(DIR_OP, &[s.as_bytes()], || direction(s.as_bytes()));
+        }
+    }
+    out.comment("state carried from one call to the next (direction): ordered pairs of identifiers that share their language");
+    {
+        let seq_op = format!("seq_{}", DIR_OP);
+        let prods = lang_products();
+        for l in ["ar", "az", "he", "fa", "ff", "ha", "ks", "ku", "pa", "sd", "ug", "ur", "uz", "yi", "ckb", "mn", "ms", "kk", "ky", "tg", "tk", "en", "zh", "sr"] {
+            let mut ids: Vec<String> = vec![l.to_string()];
+            for (a, b, c) in prods.iter().filter(|t| t.0 == l) {
+                let _ = a;
+                ids.push(format!("{}-{}", l, c)); ids.push(format!("{}-{}", l, b)); ids.push(format!("{}-{}-{}", l, b, c));
+            }
+            for d in locale_dirs().iter().filter(|d| d.split(|c| c == '-' || c == '_').next() == Some(l)) { ids.push(d.replace('_', "-")); }
+            ids.sort(); ids.dedup();
+            let cap = if thorough { 60 } else { 24 };
+            if ids.len() > cap { let step = ids.len() / cap + 1; ids = ids.iter().step_by(step).cloned().collect(); }
+            for x in ids.iter() { for y in ids.iter() {
+                if x == y { continue; }
+                out.case(&seq_op, &[x.as_bytes(), y.as_bytes()], || { let _ = direction(x.as_bytes()); direction(y.as_bytes()) });
+            } }
         }
     }
     // RTL languages x every script / region (the refinement path)
